@@ -51,9 +51,9 @@ func typeMenu(full bool) []typeEntry {
 		{Name: "bytes", T: P(KBytes), Locs: allLocs, Def: "dflt"},
 		{Name: "any", T: P(KAny), Locs: []string{LocBody}},
 		{Name: "arr_string", T: ArrT(P(KString)), Locs: allLocs, Def: []any{"x", "y"}},
-		{Name: "arr_int", T: ArrT(P(KInt)), Locs: allLocs},
-		{Name: "arr_bool", T: ArrT(P(KBool)), Locs: []string{LocQuery, LocHeader, LocBody}},
-		{Name: "arr_float64", T: ArrT(P(KFloat64)), Locs: []string{LocQuery, LocBody}},
+		{Name: "arr_int", T: ArrT(P(KInt)), Locs: allLocs, Def: []any{1, 2, 3}},
+		{Name: "arr_bool", T: ArrT(P(KBool)), Locs: []string{LocQuery, LocHeader, LocBody}, Def: []any{true, false}},
+		{Name: "arr_float64", T: ArrT(P(KFloat64)), Locs: []string{LocQuery, LocBody}, Def: []any{0.5, 0.25}},
 		{Name: "map_string_string", T: MapT(P(KString), P(KString)), Locs: []string{LocBody}},
 		{Name: "map_string_int", T: MapT(P(KString), P(KInt)), Locs: []string{LocBody}},
 		{Name: "map_int_string", T: MapT(P(KInt), P(KString)), Locs: []string{LocBody}},
@@ -425,6 +425,11 @@ func validMenu() []validEntry {
 		{"minlen_bytes", P(KBytes), &Valid{MinLen: I(2)}},
 		{"pattern_string", P(KString), &Valid{Pattern: "^[a-c]+$"}},
 		{"pattern2_string", P(KString), &Valid{Pattern: "[0-9]{2}"}},
+		// patterns with characters that matter to whoever prints them into generated code
+		{"pattern_pct_string", P(KString), &Valid{Pattern: "^[0-9]{1,3}%$"}},
+		{"pattern_pct2_string", P(KString), &Valid{Pattern: "^a%%b%d$"}},
+		{"pattern_bs_string", P(KString), &Valid{Pattern: `^\d+\.\d+$`}},
+		{"pattern_bt_string", P(KString), &Valid{Pattern: "^`b`$"}},
 		// degenerate ranges: lower bound == upper bound (exactly one length / one value)
 		{"eqlen_string", P(KString), &Valid{MinLen: I(2), MaxLen: I(2)}},
 		{"eq_int", P(KInt), &Valid{Min: F(3), Max: F(3)}},
